@@ -315,7 +315,15 @@ func dumpLHState(st annotateast.AnnotateState) string {
 		}
 		return "param[" + x.Name + o + " " + dumpLHType(x.ParamType) + "]"
 	case *annotateast.AnnotateReturnState:
-		return "return[" + tl(x.ReturnTypeList) + "]"
+		var ps []string
+		for i, t := range x.ReturnTypeList {
+			o := ""
+			if i < len(x.ReturnOptionList) && x.ReturnOptionList[i] {
+				o = "?"
+			}
+			ps = append(ps, dumpLHType(t)+o)
+		}
+		return "return[" + strings.Join(ps, ",") + "]"
 	case *annotateast.AnnotateAliasState:
 		return "alias[" + x.Name + " " + dumpLHType(x.AliasType) + "]"
 	case *annotateast.AnnotateGenericState:
@@ -489,7 +497,7 @@ func c16GenCase(r *Rng) c16Case {
 		}
 		return c16Case{Kind: "param", Line: "---@param pname" + opt + " " + ts + cmt, Want: "param[pname" + opt + " " + t.Sexp() + "]", TypeSrc: ts, RTrip: !t.hasFun(), Depth: depth}
 	case 6:
-		n := r.Range(1, 2)
+		n := r.Range(1, 3)
 		types := []*AType{t}
 		srcs := []string{ts}
 		for i := 1; i < n; i++ {
@@ -503,8 +511,23 @@ func c16GenCase(r *Rng) c16Case {
 			}
 		}
 		var want []string
-		for _, x := range types {
-			want = append(want, x.Sexp())
+		for i, x := range types {
+			w := x.Sexp()
+			// an optional marker after any of the listed types, not only the last one
+			if !x.hasFunAtEnd() && r.Chance(1, 4) {
+				srcs[i] += "?"
+				w += "?"
+			}
+			want = append(want, w)
+		}
+		// a fun type followed by ", T" is ambiguous with a second return of the fun: keep fun types last or alone
+		for i := 0; i < len(types)-1; i++ {
+			if types[i].hasFunAtEnd() {
+				types = types[:1]
+				srcs = srcs[:1]
+				want = want[:1]
+				break
+			}
 		}
 		return c16Case{Kind: "return", Line: "---@return " + strings.Join(srcs, ", ") + cmt, Want: "return[" + strings.Join(want, ",") + "]", TypeSrc: srcs[0], RTrip: !types[0].hasFun(), Depth: depth}
 	case 7:
